@@ -376,6 +376,9 @@ def load_known_findings():
     if os.path.exists(p):
         for f in json.load(open(p)).get('findings', []):
             out.setdefault(f['property'], []).append(f)
+            # a crash of the merger is a finding of C03; the other merge checks meet the same crash
+            for other in f.get('also', []):
+                out.setdefault(other, []).append(f)
     return out
 
 
